@@ -37,7 +37,8 @@ def run(ctx):
     rnd = random.Random(ctx.seed)
     behs = []
     # exhaustive small configurations, one witness per coverage class
-    for cfg, part, take in (("MC_refs_quick.cfg", "quick", 70), ("MC_refs_fast.cfg", "fast", 90), ("MC_refs_ckpt.cfg", "ckptmc", 120)):
+    for cfg, part, take in (("MC_refs_quick.cfg", "quick", 70), ("MC_refs_fast.cfg", "fast", 90), ("MC_refs_ckpt.cfg", "ckptmc", 120),
+                            ("MC_refs_dup.cfg", "dup", 60)):
         if not ctx.want(part):
             continue
         mc = ctx.tlc("db", "Refs", cfg, workers=1, timeout=3000)
